@@ -181,7 +181,9 @@ def describe(x, depth=0):
         return "<deep>"
     if t is int and x.bit_length() > 4000:
         return ["bigint", x.bit_length(), x % 1000003]        # (its decimal text may be beyond the interpreter's own digit limit)
-    if x is None or t in (bool, int, str):
+    if t is bool:
+        return ["bool", x]            # (True == 1 in Python: compared results must tell them apart)
+    if x is None or t in (int, str):
         return x
     if t is float:
         return ["f", repr(x)]
@@ -1677,7 +1679,13 @@ SEQ_TYPES = ["int | str", "typing.Union[int, str, None]", "list[int] | list[str]
              "Span", "dict[str, int]", "Pt2", "Pt3", "datetime.timedelta", "datetime.date", "datetime.datetime", "datetime.time",
              # mappings whose KEY types share an origin (Literal, tuple) and differ in their arguments only
              "dict[typing.Literal['a', 'b'], int]", "dict[typing.Literal['a'], int]", "dict[tuple[int, str], float]", "dict[tuple[str, int], float]",
-             "dict[tuple[int, int, int], str]"]
+             "dict[tuple[int, int, int], str]",
+             # Literal forms which compare EQUAL (1 == True, typing ignores the order of members) and are different annotations
+             "typing.Literal[1, True]", "typing.Literal[True, 1]", "typing.Literal[0, False, 'a']", "typing.Literal['a', False, 0]",
+             "list[typing.Literal[True, 1]]"]
+LIT_TWINS = [["typing.Literal[1, True]", "typing.Literal[True, 1]"], ["typing.Literal[0, False, 'a']", "typing.Literal['a', False, 0]"],
+             ["typing.Literal[1, True]", "list[typing.Literal[True, 1]]"]]
+LIT_INPUTS = ["True", "1", "False", "0", "'1'", "'a'", "[True, 1]", "'true'"]
 KEY_TWINS = [["dict[typing.Literal['a', 'b'], int]", "dict[typing.Literal['a'], int]"], ["dict[tuple[int, str], float]", "dict[tuple[str, int], float]"],
              ["dict[tuple[int, int, int], str]", "dict[tuple[int, str], float]"]]
 KEY_INPUTS = ["{'a': '1', 'b': '2'}", "{'b': '2'}", "{'a': '1'}", "{'1,2': '0.5'}", "{'7,8,9': 'x'}", "'{\"1,2\": \"0.5\"}'"]
@@ -1691,7 +1699,8 @@ SEQ_INPUTS = ["'abc'", "'5'", "'1.5'", "5", "1.5", "float('inf')", "True", "None
               "'PT1H30M'", "'2021-05-06T07:08:09+00:00'", "'12:30:00+00:00'", "b'PT1H30M'", "b'2020-01-02'",
               # texts and numbers beyond the interpreter's limit for int <-> str conversion (4300 digits)
               "'9' * 5000", "'word ' * 1200", "10 ** 5000", "['7' * 4400]",
-              "{'a': '1', 'b': '2'}", "{'b': '2'}", "{'a': '1'}", "{'1,2': '0.5'}", "{'7,8,9': 'x'}", "'{\"1,2\": \"0.5\"}'"]
+              "{'a': '1', 'b': '2'}", "{'b': '2'}", "{'a': '1'}", "{'1,2': '0.5'}", "{'7,8,9': 'x'}", "'{\"1,2\": \"0.5\"}'",
+              "1", "False", "0", "'1'", "'a'", "[True, 1]", "'true'"]
 SEQ_OPS = ["marshal", "unmarshal", "encode", "decode"]
 
 
@@ -1777,6 +1786,10 @@ def check_sequences(ctx, res):
             for x in KEY_INPUTS:
                 for y in KEY_INPUTS:
                     warm_jobs.append([("unmarshal", a, x), ("unmarshal", b, y)])
+    for t1, t2 in LIT_TWINS:
+        for a, b in ((t1, t2), (t2, t1)):
+            for x in LIT_INPUTS:
+                warm_jobs.append([("unmarshal", a, x), ("unmarshal", b, x), ("marshal", a, x), ("marshal", b, x)])
     outs = iso.map_isolated(_seq_child, cold_jobs + warm_jobs, timeout=120.0)
     cold = {}
     for job, o in zip(cold_jobs, outs[:len(cold_jobs)]):
